@@ -32,6 +32,90 @@ func c02SitesFixture(casketfile string) *fsFixture {
 	return fx
 }
 
+// c02SitesMountFixture: the same tree MOUNTED (c02common.go: fsMount) — the model's "/" is the real
+// top of the file system, /MNT the harness's temp directory, so that `root /` and roots several
+// levels above the Casketfile are site roots like any other.
+func c02SitesMountFixture(casketfile string) *fsFixture {
+	fx := newFixture()
+	fx.dir(fsMount)
+	for _, e := range c02SitesFixture("/w/top.txt").entries {
+		fx.add(fsMount+e.path, e.isDir)
+	}
+	fx.file(casketfile)
+	return fx
+}
+
+var c02SitesMountRoots = []string{"/", fsMount, fsMount + "/w", fsMount + "/w/site", fsMount + "/conf"}
+var c02SitesMountCasketfiles = []string{fsMount + "/w/site/Casketfile", fsMount + "/w/site/sub/Casketfile", fsMount + "/Casketfile", fsMount + "/conf/Casketfile"}
+
+// c02Under: p lies strictly below the directory root ("/" = the top of the file system).
+func c02Under(root, p string) bool {
+	if root == "/" {
+		return len(p) > 1 && p[0] == '/'
+	}
+	return strings.HasPrefix(p, root+"/")
+}
+
+func c02Mounted(fxText string) bool {
+	return strings.HasPrefix(fxText, "d1 "+fsMount+"\n")
+}
+
+// c02SitesMountProbes: the requests one address of a block over a mounted fixture is asked.  Below a
+// root above the mount point NOTHING outside the fixture is touched: every target stays (after
+// cleaning) below /MNT, "/" and /MNT itself are never archived, "/" is never listed.
+func c02SitesMountProbes(fx *fsFixture, root, casketfile string) [][3]string {
+	var out [][3]string
+	add := func(m, t, ae string) { out = append(out, [3]string{m, t, ae}) }
+	base, mnt := root, ""
+	if root == "/" {
+		base, mnt = "", fsMount
+	}
+	if root != "/" {
+		add("GET", "/", "")
+		if root != fsMount {
+			add("GET", "/?archive=tar", "")
+			add("GET", "/?archive=zip", "")
+		}
+	}
+	for _, e := range fx.entries {
+		if !c02Under(root, e.path) {
+			continue
+		}
+		rel := strings.TrimPrefix(e.path, base)
+		add("GET", rel, "")
+		if e.isDir {
+			add("GET", rel+"/", "")
+			if e.path != fsMount {
+				add("GET", rel+"/?archive=tar", "")
+				add("GET", rel+"?archive=zip", "")
+				add("GET", rel+"/?archive=tar.gz", "")
+			}
+		} else {
+			add("GET", rel, "gzip")
+		}
+	}
+	if c02Under(root, casketfile) {
+		// the Casketfile under every spelling; the mount element itself stays as it is
+		tail := strings.TrimPrefix(strings.TrimPrefix(casketfile, base), mnt)
+		add("GET", mnt+tail, "")
+		add("HEAD", mnt+tail, "")
+		add("POST", mnt+tail, "")
+		add("GET", mnt+"/."+tail, "gzip")
+		add("GET", mnt+"/"+tail, "")
+		add("GET", "/"+mnt+tail, "")
+		add("GET", "/%2e%2e"+mnt+tail, "")
+		add("GET", mnt+"/x/.."+tail, "br")
+		add("GET", mnt+tail[:1]+fmt.Sprintf("%%%02x", tail[1])+tail[2:], "")
+	}
+	if root != "/" {
+		// out of the root (cleaned away before the file system is asked; stays below the mount point)
+		for _, t := range []string{"/../Casketfile", "/../conf/Casketfile", "/../site/Casketfile", "/../../w/site/Casketfile", "/../conf/c.txt"} {
+			add("GET", t, "")
+		}
+	}
+	return out
+}
+
 var c02SitesRoots = []string{"/w/site", "/w/site/sub", "/w/site2", "/w/other", "/w"}
 var c02SitesCasketfiles = []string{"/w/site/Casketfile", "/w/site/sub/Casketfile", "/w/site2/Casketfile", "/w/Casketfile", "/conf/Casketfile", "/w/site2/index.html"}
 
@@ -128,6 +212,10 @@ func c02SitesGen(g *hx.Gen) {
 	}
 	emitInstance := func(cf string, blocks []fsBlockSpec) {
 		fx := c02SitesFixture(cf)
+		probes := c02SitesProbes
+		if c02Under(fsMount, cf) {
+			fx, probes = c02SitesMountFixture(cf), c02SitesMountProbes
+		}
 		lines := make([]string, len(blocks))
 		for i, b := range blocks {
 			lines[i] = c02BlockLine(b)
@@ -136,7 +224,7 @@ func c02SitesGen(g *hx.Gen) {
 		n := 0
 		for _, b := range blocks {
 			for _, h := range b.hosts {
-				for _, p := range c02SitesProbes(fx, b.root, cf) {
+				for _, p := range probes(fx, b.root, cf) {
 					n++
 					fm := "j"
 					if n%5 == 0 {
@@ -185,6 +273,44 @@ func c02SitesGen(g *hx.Gen) {
 			})
 		}
 	}
+	// MOUNTED fixture: the top of the file system (`root /`) and roots several levels above the
+	// Casketfile as values of the root dimension.  A site whose root is "/" browses only below the
+	// mount point.
+	mkMountBlocks := func(roots []string, style func() int) []fsBlockSpec {
+		blocks := mkBlocks(roots)
+		for i := range blocks {
+			blocks[i].style = style()
+			switch blocks[i].root {
+			case "/":
+				blocks[i].browse = hx.Pick(r, []string{fsMount + "|" + c02Arch, fsMount + "|tar,zip", fsMount + "/w|tar;" + fsMount + "|zip", ""})
+			case fsMount:
+				blocks[i].browse = hx.Pick(r, []string{"/|" + c02Arch, "/w|tar,zip", "/|tar", ""})
+			}
+		}
+		return blocks
+	}
+	for bit := -1; bit <= stBits; bit++ {
+		style := 0
+		if bit >= 0 && bit < stBits {
+			style = 1 << bit
+		} else if bit == stBits {
+			style = stAll
+		}
+		emitInstance(fsMount+"/w/site/Casketfile", []fsBlockSpec{
+			{hosts: []string{"s0.test"}, root: fsMount + "/conf", browse: "/|tar", style: style},
+			{hosts: []string{"s1.test", "localhost"}, root: "/", browse: fsMount + "|" + c02Arch, index: "x.txt,index.html", style: style},
+		})
+	}
+	for _, cf := range c02SitesMountCasketfiles {
+		for _, r1 := range c02SitesMountRoots {
+			for _, r2 := range c02SitesMountRoots {
+				if r1 == "/" || r2 == "/" || r1 == fsMount || r2 == fsMount || g.Thorough() {
+					emitInstance(cf, mkMountBlocks([]string{r1, r2}, randStyle))
+				}
+			}
+		}
+		emitInstance(cf, mkMountBlocks([]string{hx.Pick(r, c02SitesMountRoots), "/", hx.Pick(r, c02SitesMountRoots)}, randStyle))
+	}
 	// every Casketfile location x every ordered pair of roots (inside / outside / nested / equal)
 	for _, cf := range c02SitesCasketfiles {
 		for _, r1 := range c02SitesRoots {
@@ -213,9 +339,19 @@ func c02SitesEval(f []string) (string, []string) {
 	if err != nil {
 		return "bad-case:" + err.Error(), nil
 	}
+	mounted := c02Mounted(hx.UnHS(f[0]))
 	site, err := fsSiteFor([]string{f[0], "sites", f[1], f[2]}, func(T string) (string, error) {
 		var b strings.Builder
 		for _, bl := range blocks {
+			if mounted {
+				// the root line names the real directory ("/" is the top of the file system itself);
+				// browse scopes of a root above the mount point name real paths
+				bl.absRoot = "/"
+				if bl.root != "/" {
+					bl.absRoot = fsRealPath(T, bl.root)
+				}
+				bl.browse = strings.ReplaceAll(bl.browse, fsMount, T)
+			}
 			b.WriteString(fsBlockText(T, bl))
 		}
 		return b.String(), nil
@@ -231,7 +367,22 @@ func c02SitesEval(f []string) (string, []string) {
 	if ae != "" {
 		hdr += "Accept-Encoding: " + ae + "\r\n"
 	}
-	out, kind := site.roundTripHost(host, method, target, hdr, true)
+	var out, kind string
+	if !mounted {
+		out, kind = site.roundTripHost(host, method, target, hdr, true)
+	} else {
+		// model coordinates -> real paths in the request, and back in a Location header
+		escT := (&url.URL{Path: site.T}).EscapedPath()
+		resp, body, rerr, err := site.fetchHost(host, method, strings.ReplaceAll(target, fsMount, escT), hdr)
+		if err != nil {
+			out, kind = "io-error:"+strings.SplitN(err.Error(), ":", 2)[0], "io-error"
+		} else {
+			if loc := resp.Header.Get("Location"); loc != "" {
+				resp.Header.Set("Location", strings.ReplaceAll(strings.ReplaceAll(loc, escT, fsMount), site.T, fsMount))
+			}
+			out, kind = fsRender(method, resp, body, rerr, true)
+		}
+	}
 	tags := []string{"kind=" + kind, fmt.Sprintf("blocks=%d", len(blocks))}
 	cf := hx.UnHS(f[1])
 	for i, bl := range blocks {
@@ -240,10 +391,15 @@ func c02SitesEval(f []string) (string, []string) {
 				continue
 			}
 			tags = append(tags, fmt.Sprintf("block-%d", i), fmt.Sprintf("address-%d-of-%d", j, len(bl.hosts)))
-			inside := strings.HasPrefix(cf, bl.root+"/")
+			inside := c02Under(bl.root, cf)
+			if bl.root == "/" {
+				tags = append(tags, "root=top-of-file-system")
+			} else if mounted && (bl.root == fsMount || bl.root == fsMount+"/w") {
+				tags = append(tags, "root=far-above-casketfile")
+			}
 			earlierOutside := false
 			for _, prev := range blocks[:i] {
-				if !strings.HasPrefix(cf, prev.root+"/") {
+				if !c02Under(prev.root, cf) {
 					earlierOutside = true
 				}
 			}
